@@ -54,13 +54,18 @@ func c09HostRun(w *fw.W, idx, j int) {
 	for _, f := range c09HostFormals {
 		fmt.Fprintf(&sb, "(defun %s %s (let ([v %s]) (handler-bind ((condition (lambda (&rest e) 'failed))) %s)))\n", f.fn, f.formals, f.bind, mform)
 	}
+	// the same bodies as MACROS (round 10): MacroCall is the third entry point that binds a
+	// list the host hands over to a lisp-defined parameter list
+	for _, f := range c09HostFormals {
+		fmt.Fprintf(&sb, "(defmacro %s-m %s (let ([v %s]) (handler-bind ((condition (lambda (&rest e) 'failed))) %s)) ())\n", f.fn, f.formals, f.bind, mform)
+	}
 	fmt.Fprintf(&sb, "(defun lit () %s)\n(lit)\n", kind.expr)
 	src := sb.String()
 	w.Logf("source:\n%s", src)
 
 	parser := rt.New(rt.Opts{})
 	calls := 0
-	for _, entry := range []string{"FunCall", "FunCallContext"} {
+	for _, entry := range []string{"FunCall", "FunCallContext", "MacroCall"} {
 		for _, f := range c09HostFormals {
 			// every class gets a Program of its own: a finding in one must not hide the others
 			prog, err := parser.Env.ParseProgram("c09", "c09.lisp", strings.NewReader(src))
@@ -81,6 +86,9 @@ func c09HostRun(w *fw.W, idx, j int) {
 			// a new load hands the host a new value of the literal
 			lit := main.Env.LoadProgram(prog)
 			fun := main.Env.GetFun(lisp.Symbol(f.fn))
+			if entry == "MacroCall" {
+				fun = main.Env.Get(lisp.Symbol(f.fn + "-m"))
+			}
 			if fun.Type != lisp.LFun {
 				w.Violation("harness-host-function-missing", f.fn, src)
 				return
@@ -93,12 +101,17 @@ func c09HostRun(w *fw.W, idx, j int) {
 			}
 			if entry == "FunCall" {
 				main.Env.FunCall(fun, args)
+			} else if entry == "MacroCall" {
+				main.Env.MacroCall(fun, args)
 			} else {
 				main.Env.FunCallContext(context.Background(), fun, args)
 			}
 			calls++
 			w.Eval(1)
-			class := fmt.Sprintf("host-call|%s|%s", how, f.name) // both entry points are one class: they share the binder
+			class := fmt.Sprintf("host-call|%s|%s", how, f.name) // FunCall and FunCallContext are one class: they share the binder
+			if entry == "MacroCall" {
+				class = fmt.Sprintf("host-macro-call|%s|%s", how, f.name)
+			}
 			w.CoverKey(class + "|" + entry + "|" + mu.name)
 			w.SetAdd("host_call_classes", class+"|"+entry)
 			what := fmt.Sprintf("the host passed the value LoadProgram returned (the program's literal %s) to %s of a function with formals %s whose body is %s, as %s", kind.expr, entry, f.formals, mform, how)
